@@ -49,4 +49,52 @@ CLAIMS["C10"] = {
     "technique": "Lean 4 proof (inductive invariant over all operation histories, termination by well-founded recursion) + differential correspondence",
 }
 
+CLAIMS["C11"] = {
+    "text": "Lean theorems about the model of step()/execute(): a step on a finished machine or at the limit fails and returns the machine "
+            "unchanged; below the limit it is exactly the unguarded step; every successful step advances the executed count by exactly one, keeps "
+            "limit and code end, and returns continue = !finished; finish_iff; execute is iterated step and fuel never changes a finished run; with "
+            "limit N the first N steps are never refused for the limit and step N+1 is (induction over runs). Tied to execute.rs by random "
+            "programs run step-by-step and by execute() on both sides.",
+    "design_ref": "DESIGN.md section 7, C11", "note": COMMON_NOTE,
+    "technique": "Lean 4 proof (stage-wise frame lemmas, induction over runs) + model-vs-code differential correspondence",
+}
+CLAIMS["C12"] = {
+    "text": "Lean theorems with hooks as arbitrary functions: invoked hooks form a prefix of the registered list, all run unless one reports "
+            "handled, stops or fails; after every chain and every step hooks.running is false (re-registration always possible outside hooks) and "
+            "true inside hooks; hooks of other mnemonics are never consulted; before-hooks see RIP = next_ip; failing hooks fail the step. "
+            "Correspondence with scripted native hooks logging (id, phase, RIP, count, running).",
+    "design_ref": "DESIGN.md section 7, C12", "note": COMMON_NOTE + "JS hook path (wasm32) not run.",
+    "technique": "Lean 4 proof (induction over hook chains, universally quantified hook functions) + differential correspondence with scripted hooks",
+}
+CLAIMS["C13"] = {
+    "text": "Lean theorems about the brk handler's computation: every call, successful or failed, preserves the memory invariants and the heap "
+            "invariant; brk(0) returns start+len; brk(p>=start) sets the break to p and returns p when the extent is free; all heap bytes are "
+            "readable and writable; bytes below old and new break survive. Correspondence over brk histories with stores/loads and neighbours.",
+    "design_ref": "DESIGN.md section 7, C13", "note": COMMON_NOTE,
+    "technique": "Lean 4 proof (invariant over all calls, reuse of C08/C10 lemmas) + differential correspondence",
+}
+CLAIMS["C14"] = {
+    "text": "Lean theorem fifo_all_histories: for every history of pipe/write/read calls with arbitrary descriptor numbers, every pipe satisfies "
+            "read-so-far ++ queued = written-so-far (no loss, duplication or reordering); reads return min(count, available) bytes; operations on "
+            "one pipe leave other queues unchanged; non-pipe descriptors are left untouched for later hooks. Correspondence over interleavings "
+            "with 1-3 pipes and a trailing user hook.",
+    "design_ref": "DESIGN.md section 7, C14", "note": COMMON_NOTE + "Descriptor numbers come from the host RNG and are fed back to the model from the implementation run.",
+    "technique": "Lean 4 proof (ghost-history conservation invariant by induction over all histories) + differential correspondence",
+}
+CLAIMS["C17"] = {
+    "text": "Lean theorems about init_stack_program_start for every argv/envp/length/layout: result memory well-formed and overlap-free, strings "
+            "copied NUL-terminated into fresh areas in order, frame slot arithmetic, RSP 16-byte aligned, stack_top = RSP, requested space below "
+            "RSP up to 48 bytes padding. That popping yields argc/argv/0/envp/0 is checked by executing POPs on model and implementation.",
+    "design_ref": "DESIGN.md section 7, C17", "note": COMMON_NOTE + "frame_pops is sampled (correspondence), not proved.",
+    "technique": "Lean 4 proof (invariants, arithmetic by omega, bv_decide for the alignment mask) + differential correspondence executing POPs",
+}
+CLAIMS["C18"] = {
+    "text": "Lean theorem trace_eq_spec: for every sequence of taken transfers the trace built by add_trace's list logic equals an independent "
+            "tracer (entries in order, repeated jumps collapsed into counts, level = saturating call depth); counts add up; untaken branches leave "
+            "the trace unchanged; CALL pushes the call stack; indentation bounded. Correspondence on branchy/unbalanced programs with the three "
+            "renderers invoked after every step.",
+    "design_ref": "DESIGN.md section 7, C18", "note": COMMON_NOTE + "Renderers are exercised, not modelled.",
+    "technique": "Lean 4 proof (fold = spec by induction with a depth invariant) + differential correspondence",
+}
+
 NOT_YET = {}
